@@ -11,8 +11,8 @@ TRUSTED = [
     "sync.Mutex/RWMutex semantics and happens-before per the Go memory model (lstep); channels as ownership transfer; client_golang / standard-library internals trusted thread-safe; memory not reachable from the tracked fields is out of scope",
     "race-instrumented harness runs (race engine) corroborate at run time and supply stacks when the obligation fails; they are not proofs",
 ]
-SCENARIOS_QUICK = ["mapper lru 3 4 120", "mapper rr 3 4 120", "mapper none 0 4 80", "pipeline 250"]
-SCENARIOS_THOROUGH = ["mapper lru 3 8 800", "mapper lru 1000 4 800", "mapper rr 2 8 800", "mapper none 0 8 500", "pipeline 3000", "pipeline 3000"]
+SCENARIOS_QUICK = ["mapper lru 3 4 120", "mapper rr 3 4 120", "mapper none 0 4 80", "mapper none 0 4 80 unordered", "pipeline 250"]
+SCENARIOS_THOROUGH = ["mapper lru 3 8 800", "mapper lru 1000 4 800", "mapper rr 2 8 800", "mapper none 0 8 500", "mapper none 0 8 500 unordered", "mapper lru 2 8 500 unordered", "pipeline 3000", "pipeline 3000"]
 
 PREPARE = True
 
@@ -55,5 +55,7 @@ def run(rep, tier, seed, replay):
                           dict(unprotected_pairs_or_uncovered_go=off, theorem="coq/theories/Properties/C20.v", race_detector="no report in the scenarios run"), no_input=True)
     elif n:
         rep.violation("the race detector reports a data race although the access table passes", dict(race_report=text, scenarios=scen))
+    elif any("mixed=" in ln and "mixed=0" not in ln for ln in (text or "").splitlines()):
+        rep.violation("concurrent lookups were answered with another lookup's captures or a mixture of two configurations", dict(output=text[:2000], scenarios=scen))
     if n is None:
         rep.violation("race-instrumented harness unavailable", dict(log=text), no_input=True)
